@@ -242,16 +242,7 @@ impl SodiumCtx {
         #[cfg(feature = "verif_hooks")]
         crate::verif::sched_point("eot:start");
         // pre eot
-        {
-            let pre_eot = self.with_data(|data: &mut SodiumCtxData| {
-                let mut pre_eot: Vec<Box<dyn FnMut() + Send>> = Vec::new();
-                mem::swap(&mut pre_eot, &mut data.pre_eot);
-                pre_eot
-            });
-            for mut k in pre_eot {
-                k();
-            }
-        }
+        self.run_pre_eot();
         #[cfg(feature = "verif_hooks")]
         crate::verif::sched_point("eot:after-pre-eot");
         //
@@ -269,6 +260,9 @@ impl SodiumCtx {
             for node in changed_nodes {
                 self.update_node(node.node());
             }
+            // what was built while the nodes were updated (by a handler, by a mapping function)
+            // finishes its construction in this transaction too
+            self.run_pre_eot();
         }
         #[cfg(feature = "verif_hooks")]
         crate::verif::sched_point("eot:drained");
@@ -312,6 +306,24 @@ impl SodiumCtx {
             crate::verif::sched_point("eot:before-collect");
             // gc
             self.collect_cycles()
+        }
+    }
+
+    // Runs the closures queued for the end of the transaction, including those queued meanwhile
+    // (a switch built by the mapping function that another switch's closure forces).
+    fn run_pre_eot(&self) {
+        loop {
+            let pre_eot = self.with_data(|data: &mut SodiumCtxData| {
+                let mut pre_eot: Vec<Box<dyn FnMut() + Send>> = Vec::new();
+                mem::swap(&mut pre_eot, &mut data.pre_eot);
+                pre_eot
+            });
+            if pre_eot.is_empty() {
+                break;
+            }
+            for mut k in pre_eot {
+                k();
+            }
         }
     }
 
